@@ -47,6 +47,14 @@ func mutBytes(s string, key bool) string {
 			b[i] = c + 1
 		case c == ' ':
 			b[i] = '_'
+		case c == '\r':
+			b[i] = '\f' // control characters other than the line feed are content like any other
+		case c == '\f':
+			b[i] = '\r'
+		case c == 0x7f:
+			b[i] = 0x1b
+		case c == 0x1b:
+			b[i] = 0x7f
 		}
 	}
 	return string(b)
